@@ -517,7 +517,7 @@ _TCP_WHAT = ("E-TCP: two real NodeServers listening on loopback ports (dual-stac
              "deadline-free clauses are verdicts (order, duplicates, misdelivery, reply values, fence-based completeness, effects of unauthenticated peers, "
              "two listed links, a valid link torn down)")
 for _k in ("C17", "C18", "C19", "C20"):
-    PROPS[_k]["runs"].append({"engine": "tcp", "quick": 160, "thorough": 24000, "timeout_s": 14400, "what": _TCP_WHAT})
+    PROPS[_k]["runs"].append({"engine": "tcp", "quick": 160, "thorough": 48000, "timeout_s": 14400, "what": _TCP_WHAT})
     PROPS[_k]["runs"].append({"engine": "tcp", "build": "tsan", "quick": 48, "thorough": 4800, "timeout_s": 14400,
                               "what": "E-TCP scenarios under ThreadSanitizer (the cluster code on a multi-thread runtime with real sockets)"})
     PROPS[_k]["level_note"] += (" E-TCP runs drive the same property over real loopback TCP (listener, client_connect, NetworkStream halves); what did not happen "
@@ -572,7 +572,7 @@ FIX_COMMITS.append("9f411cc")
 # C20 over TCP: exit-under-load and membership-during-set-up need a few hundred scenarios per hit
 for _r in PROPS["C20"]["runs"]:
     if _r["engine"] == "tcp" and _r.get("build", "main") == "main":
-        _r["quick"] = 640
+        _r["quick"] = 960
 _EXTRA5 = {
     "C05": ("Thread engine: half of the scenarios run without the lock-ordered tap (its own tree-lock round trip would order the exiting thread behind a linker) and pair LINK_IN_LOCK "
             "with CLEANUP_AFTER_TERMINATE (a bounded wait under the tree lock); a third pick a childless victim and aim the concurrent link / spawn_linked operations at it."),
